@@ -40,7 +40,7 @@ func isAnySlice(t types.Type) bool {
 
 func runF1(p *an.Prog, r *an.Result) {
 	roles := GetRoles(p)
-	for _, pr := range roles.Problems {
+	for _, pr := range roles.FilterProblems {
 		r.Bad("-", "roles: "+pr, token.NoPos, "an anchor the rule needs could not be resolved")
 	}
 	byName := map[string]*Filter{}
